@@ -96,3 +96,53 @@ claim(
     "AST -> symbolic expressions; derivative identities by normal form (exp-log-rational powers, I3 = t^6)",
     "DESIGN.md section 3, C18",
 )
+
+claim(
+    "C08", "other",
+    "Measures of real meshes, closed boundaries and point location on gmsh meshes depend on floating-point geometry and are not decided. Decided on the exact reference coordinates: every face / surface / segment row of the 8 volume classes is coplanar (collinear), bounding, covers each face (edge) exactly once, and the node triple Get_pointsInElem builds from it (its own statements are interpreted) gives a non-zero outward normal; 2-D contours are counter-clockwise with the reference area; boundary element types agree with face sizes; the 3-D point-location test orients its normals by the element itself; the rotation matrix is orthogonal with determinant 1 and Symmetry is the Householder reflection (polynomial identities modulo the unit-vector relations); |det F| is used for measures.",
+    "The nearest-node element search heuristic (F22 in DESIGN.md) is outside static reach. Normals at Gauss points and embedded surfaces are not covered.",
+    "exact rational geometry on interpreted tables; polynomial identities with triangular reduction; structural rules",
+    "DESIGN.md section 3, C08",
+)
+claim(
+    "C09", "other",
+    "The load routines are interpreted on labelled stubs: each public routine hands the right integration dimension to the integrator and multiplies by the thickness exactly once in 2-D and never in 3-D; the integrator, run on one symbolic boundary element, returns sum_p wJ_p f(x_p) N_n(x_p) (interpolated density for nodal arrays) aligned with dof(node, unknown), with the mass quadrature and exclusively selected elements; a point load is divided by the node count once; pressure uses the normals restricted to the first inDim components. Resultant and moment identities then follow from partition of unity / linear completeness (C06) and exact quadrature (C07).",
+    "Equality with an analytical integral for a given density and the averaged nodal normals are not decided.",
+    "label / symbolic interpretation of the integrator and dispatch code",
+    "DESIGN.md section 3, C09",
+)
+claim(
+    "C13", "other",
+    "Both Integrate_e loops are interpreted on a recording field stub: entry (i, j) is the form evaluated with trial (i//dof_n, i%dof_n) and test (j//dof_n, j%dof_n), times wJ, summed over Gauss points; Assemble scatters with the matrix maps (bilinear) / the vector map and column 0 (linear); the weak-form simulation fills slots (K, C, M, F) with one thickness factor; the value and gradient a Field contributes must depend on the active node and, for vector fields, the active dof (known finding F25: Field.__call__ ignores the dof).",
+    "Equality of integrated matrices for arbitrary user forms is not decided; user and built-in operators share the convention K[i, j] = a(N_i, N_j).",
+    "interpretation on recording stubs; provenance of sparse-constructor arguments",
+    "DESIGN.md section 3, C13",
+)
+claim(
+    "C14", "other",
+    "Inductive one-step argument over histories: inventory of derived state (25 memoised methods, assembled matrices) with read sets; every method storing to an attribute a memoised method reads reaches clear_cached_computed_values; every public mutator of what a linear simulation's assembly reads reaches Need_Update (directly, by descriptor, setter or _Notify); simulation-level caches keyed by an element group whose geometry they read are cleared on mesh events; mesh motions and coordinate assignment write every group and notify; Get_K_C_M_F re-assembles iff dirty.",
+    "Numerical identity with a fresh object and arrays mutated by the user through accessors are not decided. Read sets are closed over the simulation's own module (documented in the evidence).",
+    "effect analysis (attribute stores / reads) + call-graph reachability of invalidators",
+    "DESIGN.md section 3, C14",
+)
+claim(
+    "C15", "other",
+    "Per simulation class: keys Set_Iter reads are keys Save_Iter stores; every attribute Save_Iter commits is restored by Set_Iter from the stored dict (known finding F11: the phase-field history field); Get_results and its callees store nothing and never read self.folder; values stored in an iteration dict are fresh copies and no code writes the live solution arrays in place; Mesh.Save / Load_Mesh agree on tuple order by parameter provenance; every Result override restores the requested iteration first.",
+    "Equality of restored numbers, file-system behaviour and MPI merges are not decided.",
+    "writer/reader key agreement; effect analysis; alias rules; tuple-order provenance",
+    "DESIGN.md section 3, C15",
+)
+claim(
+    "C19", "other",
+    "Only the effect clause is decided: everything reachable from Behavior.Integrate inside the InElastic package stores to no attribute and writes in place to no alias of the committed-state parameter (interprocedural alias analysis); the committed state has only the writers construction / lazy zeros / Save_Iter / Set_Iter, assembly stores the trial state only, Integrate is called only from assembly and MaterialPoint.Run; every local Newton update passes the multiplier bound; the no-internal-variable path is elastic.",
+    "Admissibility, dissipation, tangent consistency and agreement of the two local solvers are inequalities / derivatives over run-time paths: not decided.",
+    "call-graph reachability + effect analysis + interprocedural alias / in-place analysis",
+    "DESIGN.md section 3, C19",
+)
+claim(
+    "C20", "other",
+    "Partition truth, reproducibility and ghost-layer sufficiency depend on gmsh's partitioner and on MPI runs that cannot be executed here: not decided. Decided: energies / reactions restrict vector and operator rows to the owned dofs and reduce; every np.searchsorted haystack has sorted provenance (or is reported as unproven); the ghost layer is built from all other ranks' elements touching an owned node and the group rows are unique(owned + ghost) with partition data in parameter order; Merge maps nodes with the offsets used to shift connectivities.",
+    "Only single-process-invisible structural clauses are decided.",
+    "structural / provenance rules over the partition and reduction code",
+    "DESIGN.md section 3, C20",
+)
